@@ -212,6 +212,21 @@ class Extractor:
             raise Undecided(f"lost anchor: production `{sig}` not found in {rel}")
         a = acts[hit[0].user_action]
         params = []
+        fnptr_calls = []
+
+        def fnptr(pat, ty):
+            # R17: a parameter of a function-pointer type (Verus has no such type): dropped; every use must be the call
+            # `f(vm)`, which becomes `verif_fnptr_apply(vm)`, a stub the template declares with an uninterpreted effect
+            if not (opts and pat in opts.get("fnptr", ())):
+                return False
+            if ty.strip() not in ("StringOp", "fn(&mut VM)", "fn(&mut crate::vm::VM)"):
+                raise Undecided(f"{rel}: `{sig}`: parameter {pat}: {ty} is not the function-pointer type rewrite R17 expects")
+            uses = len(re.findall(r"\b" + re.escape(pat) + r"\b", a.body))
+            calls = len(re.findall(r"\b" + re.escape(pat) + r"\(\s*vm\s*\)", a.body))
+            if uses != calls or calls == 0:
+                raise Undecided(f"{rel}: `{sig}`: the function-pointer parameter {pat} is used other than as `{pat}(vm)`: outside rewrite R17")
+            fnptr_calls.append((pat, calls))
+            return True
         for pat, ty in a.params:
             if pat.startswith("("):
                 inner = [x.strip() for x in pat.strip("()").split(",")]
@@ -222,9 +237,13 @@ class Extractor:
                     continue
                 if inner[0] != "_" or inner[2] != "_":
                     raise Undecided(f"{rel}: `{sig}`: parameter pattern {pat} uses positions: outside rewrite R1")
+                if fnptr(inner[1], tym.group(1)):
+                    continue
                 params.append(f"{inner[1]}: {self._ty(tym.group(1))}")
             else:
                 if pat in drop:
+                    continue
+                if fnptr(pat, ty):
                     continue
                 if opts and opts.get("dropunused") and not re.search(r"\b" + re.escape(pat) + r"\b", a.body):
                     # R1: a parameter the block never mentions (context / out / vm handed to every action) cannot affect it
@@ -235,6 +254,9 @@ class Extractor:
         self.rewrites.append(f"{rel}: `{sig}` (__action{a.n}): R1")
         self.functions.append(f"{rel}::[{sig}]")
         body = a.body
+        for pat, calls in fnptr_calls:
+            body = re.sub(r"\b" + re.escape(pat) + r"\(\s*vm\s*\)", "verif_fnptr_apply(vm)", body)
+            self.rewrites.append(f"{rel}: `{sig}`: R17 function-pointer parameter `{pat}` dropped, {calls} call(s) `{pat}(vm)` -> verif_fnptr_apply(vm) (a stub with an UNINTERPRETED effect on the whole machine)")
         if opts and opts.get("strslice"):
             # R11 (only where the template asks for it): byte slicing / byte length of a `&str` PARAMETER
             for prm in params:
@@ -621,7 +643,7 @@ def expand(template: str, ex: Extractor) -> str:
         if kind in ("fn", "action"):
             # collect contract block
             contract, loops = [], {}
-            opts = {"ghost": [], "after": [], "before": [], "str": [], "strslice": False, "dropunused": False, "fmttoks": False, "fmtvar": [], "charindices": False}
+            opts = {"ghost": [], "after": [], "before": [], "str": [], "strslice": False, "dropunused": False, "fmttoks": False, "fmtvar": [], "fnptr": [], "charindices": False}
             j = i + 1
             if j < len(lines) and lines[j].strip().startswith("//@contract"):
                 j += 1
@@ -629,7 +651,7 @@ def expand(template: str, ex: Extractor) -> str:
                 while not (lines[j].strip() == "//@end" and cur_loop is None):
                     s = lines[j].strip()
                     lm = re.match(r"//@loop (\d+)", s)
-                    om = re.match(r"//@(ghost|after|before|str|fmtvar)\s+(.*)$", s)
+                    om = re.match(r"//@(ghost|after|before|str|fmtvar|fnptr)\s+(.*)$", s)
                     if s == "//@strslice":
                         opts["strslice"] = True
                     elif s == "//@dropunused":
@@ -641,7 +663,7 @@ def expand(template: str, ex: Extractor) -> str:
                     elif s.startswith("//@result "):
                         opts["result"] = s.split()[1]      # name of the result in the contract (default r) when a parameter is called r
                     elif om and cur_loop is None:
-                        if om.group(1) in ("str", "fmtvar"):
+                        if om.group(1) in ("str", "fmtvar", "fnptr"):
                             opts[om.group(1)] += om.group(2).split()
                         else:
                             callee, _, txt = om.group(2).partition(" :: ")
